@@ -18,7 +18,9 @@ def run(ctx):
     ctx.extra["model_instances"] = len(insts)
     limit = None if thorough else 2500
     if limit and len(insts) > limit:
-        insts = [insts[i] for i in sorted(rng.sample(range(len(insts)), limit))]
+        zero = [i for i in insts if i["tag"][0] == "zero"]            # the all-zero blocks are always run
+        rest = [i for i in insts if i["tag"][0] != "zero"]
+        insts = [rest[i] for i in sorted(rng.sample(range(len(rest)), limit))] + zero
     ctx.exhaustive = limit is None
     events, meta = [], []
     fast = total = allr = allfast = 0
@@ -33,6 +35,8 @@ def run(ctx):
         # the fast path applies when genfromtxt can stop by itself: ~A is the last section, or the data block has no
         # blank/comment lines (otherwise max_rows over-counts, genfromtxt runs into the next title and lasio falls back)
         _, r, c, deco, followers = inst["tag"]
+        if inst["tag"][0] == "zero":
+            deco = [[]] * (r + 1)
         applies = (not followers) or all(len(d) == 0 for d in deco[:r + 1])
         if ev["fastpath"]:
             allr += 1
